@@ -334,10 +334,21 @@ def run_check(prop: Prop, tier: str, seed: int) -> int:
     except Exception as e:
         broken.append(("extra-checks", traceback.format_exc()[-800:]))
 
-    # 5 failing-input search: always in thorough (cross-check), and whenever something broke
+    # 5 failing-input search: always in thorough (cross-check), and whenever something broke;
+    #   the regression corpus (inputs of repaired defects, minimised past failures) always goes through the oracle
     oracle_runs = 0
+    seen = set()
+    for l, _ in corpus_cases(pid):
+        seen.add(l)
+        oracle_runs += 1
+        try:
+            v = prop.oracle(l)
+        except Exception as e:
+            v = {"key": "oracle-exception", "what": f"oracle raised {type(e).__name__}: {e}", "case": l}
+        if v:
+            v.setdefault("case", l)
+            violations.append(v)
     if broken or tier == "thorough":
-        seen = set()
         pool = [d["case"] for d in disagreements] + lines + [c[0] for c in prop.search_cases(rng)]
         for l in pool:
             if l in seen:
